@@ -188,6 +188,25 @@ func c09Pure(c *ctx) {
 					rows = append(rows, []interface{}{tn, mt.Name, strings.Join(as, ","), before, after, r1, r2, b2i(p1)})
 				}
 			}
+			// last: the caller calls every setter of every object the accessors hand out (they are the caller's own);
+			// the object it holds must still read the same, and so must the fortune computed from it.  (Lists are left
+			// alone here: Lunar.GetJieQiList and LunarYear.GetMonths hand out the object's own container, and appending to a
+			// container is not a call of the library.)
+			if tn != "Holiday" {
+				view := func() string {
+					d := digest(x, nil) + callZeroArgRotated(x, 0)
+					if l, ok := x.(*calendar.Lunar); ok {
+						try(func() {
+							y := l.GetEightChar().GetYun(1)
+							d += callRender(y.GetStartSolar()) + fmt.Sprint(y.GetStartYear(), y.GetStartMonth(), y.GetStartDay(), y.GetDaYun()[1].GetStartYear())
+						})
+					}
+					return sha12(d)
+				}
+				before := view()
+				scribbleWith(x, false)
+				rows = append(rows, []interface{}{tn, "(every object handed out)", "written through", before, view(), "", "", 0})
+			}
 		}
 		c.emit(obj{"ev": "C09Pure", "at": m[:], "rows": rows})
 	}
